@@ -78,8 +78,7 @@ def main(argv=None):
 def _replay_any(rtc, case):
     """case may be one case dict or a list of candidate cases: the first one that FAILS on the real code wins"""
     if isinstance(case, dict):
-        ok, msg = rtc.replay(case)
-        return ok, msg, case
+        case = [case]
     last = (True, "no candidate case", None)
     for c in case:
         try:
